@@ -15,9 +15,11 @@ file instantiates that oracle from an explicit vote table (`oracleOf`), defines 
   outgoing session calls `require_more_ip_votes`, which prunes expired votes (`clear_old_votes`);
 * `step_oracle_unread` – in those other steps (pruning ones excepted) the oracle is not read at all.
 
-What is NOT in either model and therefore not covered: the connectivity timer
-(`remove_udp_socket` / `remove_udp6_socket` after `TimerFailure`), and the user-level API
-`Discv5::update_local_enr_socket` / `enr_insert`, which write the local record directly.
+What is NOT in either model: the user-level API `Discv5::update_local_enr_socket` / `enr_insert`,
+which write the local record directly.  (The connectivity state - the `countable` bit of the
+environment here - and its timer, `remove_udp_socket` / `remove_udp6_socket` after `TimerFailure`,
+are modelled in `Model/Connectivity.lean` and composed with the service model in
+`Props/C17Connectivity.lean`.)
 
 Where the two models had to be aligned (none of it is a disagreement on the validated domain):
 * `ip_votes.is_none()` is `votes.isNone` in `IpVote.pongStep` and `!cfg.enrUpdate` in
